@@ -12,6 +12,8 @@ CONSTANTS
   AllowSharedMutation = FALSE
   CMaxOps = 2
   AllowScratchReuse = FALSE
+  FieldMax = 7
+  DecWraps = FALSE
   Pairs <- MCPairs
   BaseOf <- MCBaseOf
 INIT Init
@@ -21,3 +23,6 @@ INVARIANT RecordsInside
 INVARIANT RecordsFaithful
 INVARIANT StorageTight
 INVARIANT NameRoundTrip
+INVARIANT FieldsFit
+INVARIANT NoPanic
+INVARIANT RefusalJustified
